@@ -191,6 +191,8 @@ structure PMapSt where
   upDone : Bool := false
   /-- the first downstream demand has triggered the initial pull (fix cf400b2) -/
   started : Bool := false
+  /-- the worker pool, as part of the stage: tasks dispatched and not yet answered, (seqNo, input) -/
+  outst : List (Nat × Val) := []
   alive : Bool := true
   deriving Repr, Inhabited
 
@@ -211,7 +213,7 @@ def flushOrd : Nat → Nat → List (Nat × Val) → Nat × List (Nat × Val) ×
     | some top =>
       if top.1 ≠ ne + 1 then (ne, p, [])
       else
-        let r := flushOrd f (ne + 1) (p.erase top)
+        let r := flushOrd f (ne + 1) (p.filter fun x => x.1 != top.1)
         (r.1, r.2.1, top.2 :: r.2.2)
 
 def PMapSt.flushOrdered (s : PMapSt) : PMapSt × List Down :=
@@ -224,12 +226,13 @@ def pmapStep (ordered : Bool) (w : Nat) (s : PMapSt) : Ev → PMapSt × Out
     match v with
     | .int _ =>
       let q := s.inSeq + 1
-      ({ s with inFlight := s.inFlight + 1, inSeq := q }, { tasks := [(q, v)] })
+      ({ s with inFlight := s.inFlight + 1, inSeq := q, outst := s.outst ++ [(q, v)] }, { tasks := [(q, v)] })
     | .list _ => ({ s with alive := false }, { up := [.cancel], down := [.error typeErr] })
-  | .result _ (.error e) =>
-    ({ s with inFlight := s.inFlight - 1, alive := false }, { up := [.cancel], down := [.error e] })
+  | .result q (.error e) =>
+    ({ s with inFlight := s.inFlight - 1, outst := s.outst.filter (fun t => t.1 != q), alive := false },
+      { up := [.cancel], down := [.error e] })
   | .result q (.ok v) =>
-    let s0 := { s with inFlight := s.inFlight - 1 }
+    let s0 := { s with inFlight := s.inFlight - 1, outst := s.outst.filter (fun t => t.1 != q) }
     let r1 := if ordered then ({ s0 with pending := (q, v) :: s0.pending }).flushOrdered else (s0, [Down.elem v])
     let u := if r1.1.upDone then [] else [Up.req 1]
     if r1.1.upDone && r1.1.inFlight == 0 then
